@@ -89,25 +89,29 @@ def Op.isCholOrTri : Op → Bool
   | .diag _ | .ident _ | .tri _ | .chol _ => true      -- Diag and Identity are TriangularLinearOperator subclasses
   | _ => false
 
+/-- `LinearOperator._cholesky` on the dense matrix: a 1×1 matrix takes the `sqrt` shortcut (nothing is logged),
+otherwise `psd_safe_cholesky` logs "Running Cholesky". -/
+def cholEv (n : Nat) : List Ev := if n = 1 then [] else [.chol n]
+
 /-- events of `op.cholesky()` -/
 def cholTrace : Op → List Ev
-  | .gen n | .addedDiag n => [.chol n]
+  | .gen n | .addedDiag n => cholEv n
   | .diag _ | .ident _ | .chol _ | .tri _ => []
   | .kron a b => cholTrace a ++ cholTrace b
   | .kron3 a b c => cholTrace a ++ cholTrace b ++ cholTrace c
   | .block _ base => cholTrace base
   | .brep base => cholTrace base
-  | .lrrad n _ _ => [.chol n]
-  | .kpadloConst a b => [.chol (a.size * b.size)]
+  | .lrrad n _ _ => cholEv n
+  | .kpadloConst a b => cholEv (a.size * b.size)
 
 mutual
 /-- events of `op.solve(rhs)` (through `Solve.forward` → `_solve(linear_op, rhs)`, or the class's own `solve`) -/
 def trace (s : Settings) : Op → List Ev
   | .gen n => match selectSolve false n s with
-      | .iterative => [.cg n] | _ => [.chol n]
+      | .iterative => [.cg n] | _ => cholEv n
   | .addedDiag n => match selectSolve false n s with
       | .iterative => (if s.precSize = 0 ∨ n < s.minPrec then [] else [.pivchol n]) ++ [.cg n]
-      | _ => [.chol n]
+      | _ => cholEv n
   | .diag _ | .ident _ | .tri _ | .chol _ => []
   | .lrrad _ k cached => if cached then [] else [.chol k]      -- own `solve`: Woodbury, no selection
   | .kron a b => match selectSolve false (a.size * b.size) s with
@@ -124,7 +128,7 @@ def trace (s : Settings) : Op → List Ev
       | _ => cholTrace base
   | .kpadloConst a b => match selectSolve false (a.size * b.size) s with
       | .iterative => [.symeig a.size, .symeig b.size]
-      | _ => [.chol (a.size * b.size)]
+      | _ => cholEv (a.size * b.size)
 /-- events of `op._solve(rhs, preconditioner)` (what the block operators call on their base) -/
 def innerTrace (s : Settings) : Op → List Ev
   | .gen n => [.cg n]
